@@ -44,3 +44,16 @@ Example prune_example :
   len_res (outs0 no_prune many_edges 4 0 1) = 12 /\
   outs0 many_edges no_prune 4 0 1 = outs0 no_prune many_edges 4 0 1.
 Proof. vm_compute. auto. Qed.
+
+(* the first graph found by shard 1 of 2 for n = 4 (K4 minus an edge) is well-formed *)
+Example wf_example :
+  len_res (outs0 no_prune no_prune 4 1 2) = 9 /\
+  wf_graph 4 (4, 5%Z, [3; 3; 2; 2]%Z, [1; 1; 1; 1; 1; 0]%N).
+Proof.
+  split; [vm_compute; reflexivity|].
+  unfold wf_graph, wfv. split; [reflexivity|].
+  split; [reflexivity|]. split; [reflexivity|].
+  split; [repeat (apply Forall_cons; [auto|]); apply Forall_nil|].
+  split; [|vm_compute; reflexivity].
+  intros v Hv. do 4 (destruct v as [|v]; [vm_compute; reflexivity|]). lia.
+Qed.
